@@ -26,6 +26,9 @@ pub(super) fn exactly_one<T>(iter: impl IntoIterator<Item = T>) -> T {
 }
 
 pub(super) fn block_string_value(raw: &str) -> String {
+    // `\"""` is the only escape sequence of a block string
+    let raw = raw.replace("\\\"\"\"", "\"\"\"");
+
     // Split the string by either \r\n, \r or \n
     let lines: Vec<_> = raw
         .split("\r\n")
@@ -62,10 +65,13 @@ pub(super) fn block_string_value(raw: &str) -> String {
         .skip(first_contentful_line)
         // Remove the common indent, but not on the first line
         .map(|(i, line)| {
-            if i != 0 && line.len() >= common_indent {
+            if i == 0 {
+                line
+            } else if line.len() >= common_indent {
                 &line[common_indent..]
             } else {
-                line
+                // shorter than the common indent: whitespace only, nothing is left of it
+                ""
             }
         })
         // Put a newline between each line
